@@ -84,6 +84,14 @@ Theorem C16_levenshtein_level :
 Proof. exact sem_lev_std. Qed.
 Print Assumptions C16_levenshtein_level.
 
+(* the dynamic programme equals the textbook recursive definition of the edit distance on every pair
+   of strings of length <= 4 over a 3-letter alphabet (decided exhaustively by the kernel VM) *)
+Theorem C16_levenshtein_dp_matches_recursive_definition_bounded :
+  forall s t, In s (lists_upto [0; 1; 2] 4) -> In t (lists_upto [0; 1; 2] 4) ->
+    lev_list Nat.eqb s t = lev_spec Nat.eqb s t.
+Proof. exact lev_dp_matches_spec_bounded. Qed.
+Print Assumptions C16_levenshtein_dp_matches_recursive_definition_bounded.
+
 Theorem C16_jaccard_level :
   forall P env cl cr t a b tq,
     eval P (std_fenv []) env cl = VStr a -> eval P (std_fenv []) env cr = VStr b -> numQ t = Some tq ->
